@@ -5,20 +5,94 @@ the real code and the Lean model are compared, and which executable oracle looks
 failing input on the real code.  Theorem lists live in lean/theorems.json.
 """
 
-# (stream, kwargs, number of chunks)
+
 def S_(name, nc=16, **kw):
     return (name, kw, nc)
 
 
+BINDER = "CPython's argument binder (a 20-line model, validated against real calls by stream `bind` on every run)"
+CTOR = 'the validating inspect.Signature constructor (modelled by `validate`, compared on every request)'
+NOTE = ("Trusted: Lean 4.33 kernel (axioms per theorem are listed in the evidence; only propext, Classical.choice, Quot.sound are "
+        "accepted); the hand-written model, as far as the differential correspondence agrees with /repo; the Python harness. "
+        "Modelled, not verified: ")
+
 PROPS = {
+    'C01': dict(
+        title='merge soundness', proj='proj_shape', oracle='c01',
+        quick=[S_('bind'), S_('merge_pairs'), S_('merge_pairs_stars'), S_('merge_rand', count=20000), S_('merge_roles', count=20000)],
+        thorough=[S_('bind'), S_('merge_pairs'), S_('merge_pairs_stars'), S_('merge_rand', count=300000, maxnamed=4),
+                  S_('merge_roles', count=300000)],
+        runtime_part=BINDER,
+        level_text='Soundness of merge for every number of inputs is a theorem about the Lean model of _Merger._merge / merge '
+                   '(induction over the fold with bucket invariants); the model is tied to /repo on every run by a differential '
+                   'correspondence that is exhaustive on all pairs of the 220-signature universe and sampled on 3-4-ary tuples.',
+        level_note=NOTE + BINDER + '; ' + CTOR + '.',
+    ),
+    'C02': dict(
+        title='embed', proj='proj_shape', oracle='c02',
+        quick=[S_('bind'), S_('embed_small'), S_('embed_pairs'), S_('embed_rand', count=20000)],
+        thorough=[S_('bind'), S_('embed_small'), S_('embed_pairs', nc=64), S_('embed_rand', count=300000)],
+        runtime_part=BINDER,
+        level_text='Theorems about the Lean model of _embed/embed (soundness w.r.t. the outer-forwards-to-inner composite, parameters of the '
+                   'fold, bare outer); correspondence exhaustive on 220x220 pairs, sampled on 220x2493x4 and on triples/quadruples.',
+        level_note=NOTE + BINDER + '; ' + CTOR + '.',
+    ),
     'C03': dict(
-        title='mask: exact residual signature',
-        proj='proj_shape_errclass', oracle='c03',
+        title='mask: exact residual signature', proj='proj_shape_errclass', oracle='c03',
         quick=[S_('bind'), S_('mask0'), S_('maskflags_exh'), S_('maskflags', count=40000)],
         thorough=[S_('bind'), S_('mask0'), S_('maskflags_exh'), S_('maskflags', count=600000), S_('maskp')],
-        runtime_part="CPython's argument binder (validated by stream `bind`), the validating inspect.Signature constructor",
+        runtime_part=BINDER,
         level_text='Theorems about the Lean model of _mask/mask (all signatures, all n, all name lists, no size bound) accepted by the Lean kernel; '
-                   'the model is tied to /repo on every run by an exhaustive-on-small-universes differential correspondence (U({a,b,c},3) x n x all name tuples; all 16 flag combinations on U({a,b},2)).',
-        level_note="Trusted: Lean kernel (axioms per theorem in the evidence), the hand-written model as far as the correspondence agrees, the model of CPython's binder (validated against real calls), the Python harness.",
+                   'the model is tied to /repo on every run by an exhaustive-on-small-universes differential correspondence '
+                   '(U({a,b,c},3) x n x all name tuples in every order; all 16 flag combinations on U({a,b},2)).',
+        level_note=NOTE + BINDER + '; ' + CTOR + '.',
+    ),
+    'C08': dict(
+        title='provenance', proj='proj_prov', oracle='c08',
+        quick=[S_('merge_pairs'), S_('merge_pairs_stars'), S_('merge_roles', count=20000), S_('merge_laws'),
+               S_('embed_small'), S_('embed_pairs'), S_('embed_rand', count=20000), S_('forwards_rand', count=30000),
+               S_('mask0'), S_('maskp'), S_('maskflags', count=20000)],
+        thorough=[S_('merge_pairs'), S_('merge_pairs_stars'), S_('merge_roles', count=300000), S_('merge_rand', count=200000),
+                  S_('merge_laws'), S_('embed_small'), S_('embed_pairs', nc=64), S_('embed_rand', count=300000),
+                  S_('forwards_rand', count=300000), S_('forwards_exh', nc=32), S_('mask0'), S_('maskp'), S_('maskflags', count=200000)],
+        runtime_part='identity of callables (modelled as integer ids)',
+        level_text='Well-formedness of the provenance maps is an invariant of the Lean model of every algebra operation (theorems); the duplicate-free '
+                   'clause is refuted on the code as it stands (finding D15) and proved under the hypothesis that excludes it. Correspondence compares '
+                   'sources and +depths of every result, with inner star parameters named like and unlike the outer ones.',
+        level_note=NOTE + 'object identity of callables; discovery results over real programs are covered by the checks of C05/C06.',
+    ),
+    'C09': dict(
+        title='merge precision and laws', proj='proj_shape_errclass', oracle='c09',
+        quick=[S_('bind'), S_('apply'), S_('merge_laws'), S_('merge_pairs'), S_('merge_roles', count=20000)],
+        thorough=[S_('bind'), S_('apply'), S_('merge_laws'), S_('merge_pairs'), S_('merge_pairs_stars'), S_('merge_roles', count=300000)],
+        runtime_part=BINDER,
+        level_text='Identity, idempotence, neutral-element, round-trip and fold laws are theorems about the Lean model; exactness on aligned inputs is '
+                   'checked by the oracle on all aligned pairs of the universe and sampled aligned tuples while its proof is in progress.',
+        level_note=NOTE + BINDER + '; ' + CTOR + '.',
+    ),
+    'C10': dict(
+        title='metadata rules', proj='proj_params', oracle='c10',
+        quick=[S_('meta_rand', count=40000), S_('meta_post', count=20000), S_('merge_roles', count=10000),
+               S_('embed_rand', count=10000), S_('forwards_rand', count=20000), S_('maskp')],
+        thorough=[S_('meta_rand', count=500000), S_('meta_post', count=200000), S_('merge_roles', count=100000),
+                  S_('embed_rand', count=100000), S_('forwards_rand', count=200000), S_('maskp'), S_('forwards_exh', nc=32)],
+        runtime_part='equality of default / annotation objects (modelled as token equality)',
+        level_text='The one-step conciliation rules and their n-ary lift for defaults are theorems about the Lean model; the n-ary annotation rule is '
+                   'refuted on the code as it stands (finding D14: theorem concile_annotation_nary_refuted) and proved under the hypothesis that '
+                   'excludes it. Correspondence over the universe extended with default values {None,1,2} and annotations {absent,A,B}.',
+        level_note=NOTE + '`==` on default and annotation objects.',
+    ),
+    'C15': dict(
+        title='error discipline', proj='proj_err', oracle='c15',
+        quick=[S_('merge_pairs'), S_('merge_rand', count=20000), S_('embed_small'), S_('embed_rand', count=20000),
+               S_('forwards_rand', count=30000), S_('maskflags_exh'), S_('maskflags', count=40000), S_('meta_rand', count=20000)],
+        thorough=[S_('merge_pairs'), S_('merge_pairs_stars'), S_('merge_rand', count=300000), S_('embed_small'),
+                  S_('embed_pairs', nc=64), S_('embed_rand', count=300000), S_('forwards_rand', count=300000),
+                  S_('maskflags_exh'), S_('maskflags', count=300000), S_('mask0'), S_('meta_rand', count=200000)],
+        runtime_part=CTOR,
+        level_text='The model has one explicit error constructor per Python operation that can raise, so "only ValueError / IncompatibleSignatures '
+                   'escape and every result is a valid signature" are theorems about it; the correspondence maps every real exception to its class, '
+                   'so any other exception from the real code is a disagreement by construction; each case also runs with downgraded (plain) inputs.',
+        level_note=NOTE + CTOR + '; the warnings machinery.',
     ),
 }
